@@ -96,6 +96,26 @@ CHECKS["C18"] = dict(
          "object's mutable fields, not every source line (thread-local computation between accesses commutes).",
     technique="TLC model checking of PointThreads.tla + replay of TLC's interleavings into real objects under a controlled scheduler (S->C) with step-wise access conformance",
     ref="3/C18")
+CHECKS["C06"] = dict(
+    text="CurveP.tla is the textbook chord-and-tangent law; TLC checks on the model that it is a group law (closure, identity, "
+         "inverse, commutativity, associativity, k-fold sums, Denote of rescaled triples) on every non-singular curve over F_5, F_7 "
+         "(F_11 thorough). Every +, ==/!=, double, negation, to_affine, x()/y(), scale() performed on real PointJacobi / legacy "
+         "Point objects - every curve over F_5, F_7 (F_11, F_13 thorough) x every pair of points x 16 representation combinations, "
+         "plus 10 structured curves up to F_263 incl. cofactor 2 and 4 - is decided by TLC trace validation on the denoted points, "
+         "including canonicity of returned coordinates.",
+    note="Trusted: TLC, CPython. 'For all p, a, b' is enumeration of small fields + structured curves; production curves are covered "
+         "through C07/C19 equality patterns. Known finding F8 (y = 0 treated as identity) is keyed on order-2 points.",
+    technique="TLC model checking of the group law + TLC trace validation (C->S) of exhaustive small-field operation tables",
+    ref="3/C06")
+CHECKS["C07"] = dict(
+    text="TLC recomputes k*P (k-fold sum, CurveP.tla) for every recorded multiplication on toy curves: k in [-3, 2n+3] and beyond, "
+         "through plain / rescaled / order-declared / lazily-tabled generator (fresh and warmed) / legacy objects, k*P and P*k, and "
+         "mul_add(a, Q, b) for Q in {P, -P, 2P, identity, other} x representations; points outside the subgroup without declared "
+         "order on cofactor curves. Production curves: 7 independent multiplication paths of the library must agree on structured "
+         "scalars (0, n, 2n+-1, negative, runs of ones, > 2n), n*P = infinity, results canonical and on the curve.",
+    note="Trusted: TLC, CPython. Production-size products are cross-validated between independent paths, not recomputed by TLC.",
+    technique="TLC trace validation (C->S) against the definitional k-fold sum on toy curves + path-agreement on production curves",
+    ref="3/C07")
 NOT_YET = {}
 
 
